@@ -244,13 +244,56 @@ Definition duration_deserialize (d : durtext) : option Z :=
        Some (if d_neg d then - a else a)
   else None.
 
-(* ------------------------------------------------------------------ values and JSON *)
 Inductive blobkind : Type := BBytearray | BBytes | BMemoryview.
 Inductive geomkind : Type := GPolygon | GPoint | GLineString.
 
+(* ------------------------------------------------------------------ geometry (cassandra.util Point / LineString / Polygon) *)
+(* coordinates are floats (dyadics); the text of a coordinate is repr(float), read back by geomet's wkt.loads (trusted).
+   The WKT text is kept as tokens. *)
+Definition pt : Type := ((Z * Z) * (Z * Z))%type.
+Inductive geom : Type :=
+| GeoPoint (p : pt)
+| GeoLine (l : list pt)
+| GeoPoly (ext : list pt) (ints : list (list pt)).     (* exterior ring, interior rings (holes) *)
+
+Inductive wkt : Type :=
+| WPoint (p : pt)                  (* "POINT (x y)" *)
+| WLineEmpty | WLine (l : list pt) (* "LINESTRING EMPTY" / "LINESTRING (x y, ...)" *)
+| WPolyEmpty | WPoly (rings : list (list pt)).   (* "POLYGON EMPTY" / "POLYGON ((..), (..), ...)" *)
+
+Definition geom_kind (g : geom) : geomkind :=
+  match g with GeoPoint _ => GPoint | GeoLine _ => GLineString | GeoPoly _ _ => GPolygon end.
+
+(* __str__ *)
+Definition geom_wkt (g : geom) : wkt :=
+  match g with
+  | GeoPoint p => WPoint p
+  | GeoLine [] => WLineEmpty
+  | GeoLine l => WLine l
+  | GeoPoly [] _ => WPolyEmpty                    (* if not self.exterior.coords: "POLYGON EMPTY" *)
+  | GeoPoly ext ints => WPoly (ext :: ints)       (* chain((self.exterior,), self.interiors) *)
+  end.
+
+(* <Class>.from_wkt: geomet gives {'type', 'coordinates'}; a type mismatch raises; then
+     Polygon: exterior = coords[0] if len(coords) > 0 else (); interiors = coords[1:] if len(coords) > 1 else None *)
+Definition from_wkt (k : geomkind) (w : wkt) : option geom :=
+  match k, w with
+  | GPoint, WPoint p => Some (GeoPoint p)
+  | GLineString, WLineEmpty => Some (GeoLine [])
+  | GLineString, WLine l => Some (GeoLine l)
+  | GPolygon, WPolyEmpty => Some (GeoPoly [] [])
+  | GPolygon, WPoly rings =>
+      let ext := match rings with r :: _ => r | [] => [] end in
+      let ints := if (1 <? length rings)%nat then tl rings else [] in
+      Some (GeoPoly ext ints)
+  | _, _ => None
+  end.
+
+(* ------------------------------------------------------------------ values and JSON *)
+
 Section Leaves.
   (* Python's own formatters / parsers at the leaves *)
-  Variables D Dt Tm Dtm U Geo : Type.
+  Variables D Dt Tm Dtm U : Type.
   Variable dec_str : D -> list Z.                 (* str(Decimal) *)
   Variable dec_parse : list Z -> option D.        (* Decimal(text) *)
   Variable uuid_str : U -> list Z.                (* str(UUID) *)
@@ -261,9 +304,6 @@ Section Leaves.
   Variable strptime_hm strptime_hms strptime_hmsf : list Z -> option Tm.
   Variable dtm_iso : Dtm -> list Z.               (* naive datetime .isoformat() *)
   Variable strptime_frac strptime_nofrac : list Z -> option Dtm.   (* '%Y-%m-%dT%H:%M:%S.%fZ' / '%Y-%m-%dT%H:%M:%SZ' *)
-  Variable geo_kind : Geo -> geomkind.            (* which of Point / LineString / Polygon the object is *)
-  Variable wkt_str : Geo -> list Z.               (* str(Point/LineString/Polygon) *)
-  Variable from_wkt : geomkind -> list Z -> option Geo.
 
   Inductive gval : Type :=
   | GStr (s : list Z)
@@ -275,9 +315,11 @@ Section Leaves.
   | GDate (d : Dt)
   | GTime (t : Tm)
   | GDatetime (x : Dtm) (sub : bool)               (* naive datetime; sub = instance of a user subclass of datetime *)
+  | GDatetimeAware (wall utc : Dtm)                (* aware datetime: its own wall-clock reading, and the naive UTC reading of
+                                                      the same instant (wall - utcoffset; Python's datetime arithmetic) *)
   | GTimedelta (us : Z)                            (* datetime.timedelta, total microseconds *)
   | GUuid (u : U)
-  | GGeom (g : Geo)
+  | GGeom (g : geom)
   | GDuration (mo d ns : Z)                        (* cassandra.util.Duration *)
   | GList (l : list gval)
   | GSet (l : list gval)                           (* iteration order *)
@@ -290,6 +332,7 @@ Section Leaves.
   | JInt (z : Z)
   | JFloat (m e : Z)
   | JStr (s : list Z)
+  | JWkt (w : wkt)                                 (* the WKT string of a geometry, tokenised *)
   | JDur (d : durtext)                             (* the string "P{days}DT{hours}H{minutes}M{seconds}S", tokenised *)
   | JList (l : list json)
   | JObj (l : list (list Z * json))                (* plain JSON object, string keys *)
@@ -303,8 +346,8 @@ Section Leaves.
     | GStr _ => (KStr, true) | GBool _ => (KBool, true) | GInt _ => (KInt, true) | GFloat _ _ => (KFloat, true)
     | GBlob BBytearray _ => (KBytearray, true) | GBlob BBytes _ => (KBytes, true) | GBlob BMemoryview _ => (KMemoryview, true)
     | GDecimal _ => (KDecimal, true) | GDate _ => (KDate, true) | GTime _ => (KTime, true)
-    | GDatetime _ sub => (KDatetime, negb sub) | GTimedelta _ => (KTimedelta, true) | GUuid _ => (KUuid, true)
-    | GGeom g => (match geo_kind g with GPolygon => KPolygon | GPoint => KPoint | GLineString => KLineString end, true)
+    | GDatetime _ sub => (KDatetime, negb sub) | GDatetimeAware _ _ => (KDatetime, true) | GTimedelta _ => (KTimedelta, true) | GUuid _ => (KUuid, true)
+    | GGeom g => (match geom_kind g with GPolygon => KPolygon | GPoint => KPoint | GLineString => KLineString end, true)
     | GDuration _ _ _ => (KDuration, true) | GList _ => (KList, true) | GSet _ => (KSet, true) | GTuple _ => (KTuple, true)
     | GDict _ => (KDict, true)
     end.
@@ -332,8 +375,10 @@ Section Leaves.
     | TLocalTime, GTime t => Some (JStr (time_fmt t))
     | TDurationIO, GTimedelta us => Some (JDur (duration_serialize us))
     | TInstant, GDatetime x _ => Some (JStr (dtm_iso x ++ [90]))    (* "{0}Z" *)
+    (* built from value.utctimetuple() plus value.microsecond: the UTC reading of the instant, not the wall clock *)
+    | TInstant, GDatetimeAware _ utc => Some (JStr (dtm_iso utc ++ [90]))
     | TUUID, GUuid u => Some (JStr (uuid_str u))
-    | TPolygon, GGeom g | TPoint, GGeom g | TLineString, GGeom g => Some (JStr (wkt_str g))
+    | TPolygon, GGeom g | TPoint, GGeom g | TLineString, GGeom g => Some (JWkt (geom_wkt g))     (* str(value) *)
     | TFloat, GFloat m e | TDouble, GFloat m e => Some (JFloat m e)
     | TInt16, GInt z | TInt32, GInt z | TInt64, GInt z | TBigInteger, GInt z => Some (JInt z)
     | TDseDuration, GDuration mo d ns => Some (JDseDur (JInt mo) (JInt d) (JInt ns))
@@ -430,9 +475,9 @@ Section Leaves.
         end
     | TByteBuffer, JStr s | TBlob, JStr s => option_map (GBlob BBytearray) (b64_decode s)
     | TDurationIO, JDur d => option_map GTimedelta (duration_deserialize d)
-    | TPolygon, JStr s => option_map GGeom (from_wkt GPolygon s)
-    | TPoint, JStr s => option_map GGeom (from_wkt GPoint s)
-    | TLineString, JStr s => option_map GGeom (from_wkt GLineString s)
+    | TPolygon, JWkt w => option_map GGeom (from_wkt GPolygon w)
+    | TPoint, JWkt w => option_map GGeom (from_wkt GPoint w)
+    | TLineString, JWkt w => option_map GGeom (from_wkt GLineString w)
     | _, _ => None
     end.
 
@@ -481,7 +526,7 @@ Section Leaves.
              | None => None
              end
     | JList l => option_map GList (gs_mapM (deserialize23 ver) l)
-    | JPairs _ | JTuple _ | JDseDur _ _ _ | JNull | JDur _ => None
+    | JPairs _ | JTuple _ | JDseDur _ _ _ | JNull | JDur _ | JWkt _ => None
     | _ => raw_of_json j
     end.
 
@@ -503,6 +548,7 @@ Section Leaves.
     match v with
     | GBlob _ bs => GBlob BBytearray bs
     | GDatetime x _ => GDatetime x false
+    | GDatetimeAware _ utc => GDatetime utc false      (* the same instant, read in UTC *)
     | GList l => GList (map norm l)
     | GSet l => GSet (map norm l)
     | GTuple l => GTuple (map norm l)
